@@ -146,6 +146,7 @@ func (c *c14) Check(rr *RunResult, st *Stats) []Failure {
 	// Writes into memory the caller lent (alias backing arrays, input buffers)
 	// are C06's and C04's subject; here only their functional consequences
 	// (a corrupted alias no longer found by Lookup) count.
+	fs = append(fs, PreFailures(rr)...)
 	if rr.Out.Class != "" {
 		return fs
 	}
